@@ -76,6 +76,7 @@ func (c *hcipher) add(k security.Key) string {
 func hconn(svc *Service, i int) (*Conn, *hsock) {
 	sock := &hsock{}
 	return &Conn{
+		tracked:  1, // usage tracking (device address sketch) is not the subject of any harness
 		socket:   sock,
 		luid:     security.ID(i + 1),
 		guid:     "conn" + string(rune('a'+i)),
